@@ -115,6 +115,59 @@ def run_extra(ctx):
             o = impl[base + k]
             if o in CRASH or "RUNAWAY" in o:
                 ctx.fail("crash-bt.capacity", "%s build: %s on %s" % (prof, o, c[:200].replace("\t", " ")), [c], [o], "a value or an error")
+    # >>> w_btcap (wave 5): the capacity MODEL (coq/theories/BinTapeCap.v, theorems Props/C05_tapecap.v) against the code:
+    #     both parsers on a fresh token vector of a chosen capacity c0 (hook tape_with_capacity), output = the tape AND the
+    #     capacity of the vector afterwards (hook tape_capacity); the model runs the operation lists the translator read off
+    #     tape.rs / copyless.rs under the standard library's growth (max(2 cap, needed, 4)).  c0 is placed around the token
+    #     count at the structural event, so that the `=`-in-array arm, the copyless alloc and the close of a container are
+    #     met with 0, 1, 2, 3 spare slots.  `bt.capreuse`: a second parse on the vector the first one left behind.
+    def tok_count(kinds):
+        return len(kinds)
+    cm = []
+    nmax = ctx.scale(30, 90)
+    for e in ("id", "i32", "quoted"):
+        for n in range(0, nmax):
+            body = (e,) * n
+            for kinds in (("id", "equal", "open") + body + ("id", "equal", e, "close"),
+                          ("id", "equal", "open", "open", "close") + body + ("id", "equal", e, "close"),
+                          ("id", "equal", "open") + body + ("close",),
+                          ("id", "equal", "open") + ("id", "equal", e) * n + ("close",),
+                          ("id", "equal", e) * n,
+                          ("id", "equal", "open") + ("open", "close") * (n % 12) + ("id", "equal", e, "close") + ("id", "equal", e) * (n // 12),
+                          # mixed_insert1: a lone key before the close of an object; mixed_insert2: an object that goes on as an array
+                          ("id", "equal", "open") + ("id", "equal", e) * (n // 2) + (e,) * (n % 2) + (e, "close"),
+                          ("id", "equal", "open") + ("id", "equal", e) * (n // 2) + (e,) * (n % 2) + (e, e, e, "close")):
+                h = hexs(B.enc_seq(kinds))
+                # tokens on the tape when the interesting `=` / close arrives: 2 + n (+2 for the ghost); try every slack 0..3
+                for c0 in sorted({0, n + 2, n + 3, n + 4, n + 5}):
+                    if rng.random() < (1.0 if n < 14 else 0.35):
+                        cm.append("bt.cap\t%d\t%s" % (c0, h))
+    for _ in range(ctx.scale(500, 6000)):
+        toks = B.random_tokens(rng, rng.choice([5, 9, 14, 25, 40]))
+        cm.append("bt.cap\t%d\t%s" % (rng.choice([0, 0, 1, 3, 10, 11, 12, 13, len(toks), len(toks) + 1, len(toks) + 2]), hexs(B.enc_seq(toks))))
+    docs = [B.gen_doc(rng)[0] for _ in range(ctx.scale(250, 3000))]
+    for d in docs:
+        cm.append("bt.cap\t%d\t%s" % (rng.choice([0, 0, 5, 11, 16, 17, 33]), hexs(d)))
+    for _ in range(ctx.scale(250, 3000)):
+        cm.append("bt.capreuse\t%d\t%s\t%s" % (rng.choice([0, 3, 12]), hexs(rng.choice(docs)), hexs(rng.choice(docs)) if rng.random() < 0.7 else hexs(B.enc_seq(B.random_tokens(rng, 12)))))
+    ctx.count("tape_cap_model_cases", len(cm))
+    cmw = [C05_inv.w(c) for c in cm]
+    impl, _ = ctx.correspond("tape_cap_model", cmw, nontrivial=lambda c, i: "cap=" in i, profile="release", model=True)
+    base = len(impl) - len(cmw)
+    for k, c in enumerate(cmw):
+        o = impl[base + k]
+        if o in CRASH or "RUNAWAY" in o or "LEN>CAP" in o or "with_capacity" in o:
+            ctx.fail("crash-bt.cap", "release build: %s on %s" % (o, c[:200].replace("\t", " ")), [c], [o], "a value or an error, length <= capacity")
+        if o == "NOKIND":
+            ctx.count("nokind_bt.cap")
+    # the same cases in the debug build (set_len beyond the capacity aborts there); no model run needed twice
+    impl, _ = ctx.correspond("tape_cap_debug", cmw, nontrivial=lambda c, i: "cap=" in i, profile="debug", model=False)
+    base = len(impl) - len(cmw)
+    for k, c in enumerate(cmw):
+        o = impl[base + k]
+        if o in CRASH or "RUNAWAY" in o or "LEN>CAP" in o:
+            ctx.fail("crash-bt.cap", "debug build: %s on %s" % (o, c[:200].replace("\t", " ")), [c], [o], "a value or an error, length <= capacity")
+    # <<< w_btcap
     # ---- known finding N: at opt-level 0 (the default of `cargo build` / `cargo test`) the streaming readers recurse once per
     #      refill inside one token (next -> refill_next -> next ...): a long token delivered in 1-byte reads overflows the stack
     m = 65000
